@@ -39,6 +39,7 @@ type Hold struct {
 	At       time.Time
 	Done     bool
 	Released bool
+	HeldFor  time.Duration // fake time the goroutine was kept parked (set at release)
 }
 
 type Stats struct {
@@ -180,6 +181,7 @@ func (r *Run) releaseHold(h *Hold) {
 	if h.W != nil && !h.Released {
 		h.Released = true
 		h.W.Held = false
+		h.HeldFor = time.Since(h.At)
 		r.Stats.InjectedDelayNs += int64(time.Since(h.At))
 		r.Logf("hold released: %s", h.W.Sig)
 	}
